@@ -325,9 +325,10 @@ def splice(fn, body):
     for h in fn['hints']:
         pos = rsx.find_snippet(body, h['snippet'], h['occ'])
         if pos is None:
-            if h['optional']:
-                continue
-            raise LostAnchor('%s: hint anchor not found: %r' % (fn['id'], h['snippet']))
+            # a proof hint whose anchor text is gone is dropped (the obligation it helped is then decided without it);
+            # recorded so that a resulting failure can be told apart from a regression by the Kani arbiter
+            fn.setdefault('dropped_hints', []).append(h['snippet'])
+            continue
         at = pos[0] if h['where'] == 'before' else pos[1]
         inserts.append((at, '\n' + '\n'.join(h['text']) + '\n'))
     table = {}
@@ -372,6 +373,7 @@ def generate(template, out_verus, out_raw=None, out_meta=None):
         body, table = splice(fn, body)
         body = apply_truncate(fn, body, meta)
         body = unsplice(body, table)
+        meta['dropped_hints'] = fn.get('dropped_hints', [])
         meta['contract_lines'] = len([x for x in fn['sig'] if x.strip()])
         start_line = sum(x.count('\n') + 1 for x in out) + 1
         text = '\n'.join(fn['sig']) + '\n{\n' + '\n'.join(fn['pre']) + '\n' + body + '\n}\n'
